@@ -22,7 +22,7 @@ def config(tier):
     return {
         "hashseeds": [0, 1, 2] if q else [0, 1, 2, 3, 4, 5, 6, 7],
         "families": ["G2", "DG4"],
-        "mc": [{"module": "MCFas", "cfg": "MCFas", "workers": 4, "timeout": 900},
+        "mc": [{"module": "MCFas", "cfg": "MCFas", "workers": 4 if q else 8, "timeout": 5400, "env": {} if q else {"MC_FULL": "1"}},
                {"module": "MCLoops", "cfg": "MCAcyclicUnroll", "workers": 4, "timeout": 900}],
         "shards": 8 if q else 16,
         "negctl": 10,
